@@ -80,6 +80,7 @@ bitflags! {
 		const VISUAL_LINE = 1<<1;
 		const VISUAL_BLOCK = 1<<2;
 		const EXIT_CUR_MODE = 1<<3; // for instance, when pressing enter during ex mode or search mode
+		const INSERT_SESSION = 1<<4; // an edit made by a key of insert or replace mode (backspace, ctrl-w): part of the session's undo step
 	}
 }
 
